@@ -171,7 +171,7 @@ def rows_of(a) -> np.ndarray:
 
 def violate(ctx, key: str, what: str, case, per_key: int = 2):
     """ctx.violate, at most `per_key` replays per stable key (every failure is still counted)"""
-    seen = ctx.extra.setdefault("_per_key", {})
+    seen = ctx.__dict__.setdefault("_geo_per_key", {})
     seen[key] = seen.get(key, 0) + 1
     ctx.count("oracle:" + key)
     if seen[key] <= per_key:
@@ -181,7 +181,7 @@ def violate(ctx, key: str, what: str, case, per_key: int = 2):
 
 
 def disagree(ctx, name: str, case, model, impl, per_name: int = 3):
-    seen = ctx.extra.setdefault("_per_name", {})
+    seen = ctx.__dict__.setdefault("_geo_per_name", {})
     seen[name] = seen.get(name, 0) + 1
     if seen[name] <= per_name:
         ctx.disagree(name, case, model, impl)
